@@ -88,7 +88,7 @@ type Plan struct {
 	// Schema: order-only variations of the store wiring (the behaviour every property prescribes is the same):
 	// bit 0 the extended child store registers its strategy before the plain one, bit 1 the system-entity constraint
 	// of people is added before its indexes, bit 2 the base path of the stores is a slice with spare capacity, bits 3-4 how the extended child store
-	// indexes its own field (Model.PxMode)
+	// indexes its own field (Model.PxMode), bit 5 a base path of two segments
 	Schema int    `json:"schema,omitempty"`
 	Note   string `json:"note,omitempty"`
 	// filled in when a violation is written out
@@ -502,6 +502,9 @@ func (g *gen) genOp() Op {
 					op.BadgeNo = pick(g.r, U.BadgeNos)
 				}
 			}
+			if (op.S == StStaff || op.S == StPX) && g.r.IntN(3) == 0 {
+				op.Ref = refGroup() // sponsor
+			}
 			if op.S == StPX {
 				var used []string
 				for _, p := range sh.People {
@@ -572,14 +575,24 @@ func (g *gen) genOp() Op {
 				if p, ok := sh.People[op.Id]; ok && p.HasStaff && g.r.IntN(2) == 0 {
 					op.BadgeNo = p.BadgeNo
 				}
-				fields = append(append([]string{}, fields...), "level", "badgeNo")
+				fields = append(append([]string{}, fields...), "level", "badgeNo", "sponsor")
+				if g.r.IntN(3) == 0 {
+					op.Ref = refGroup()
+				} else if p, ok := sh.People[op.Id]; ok {
+					op.Ref = cloneStrP(p.Sponsor)
+				}
 			}
 			if op.S == StPX {
 				op.Memo = pick(g.r, append([]string{""}, U.Memos...))
 				if p, ok := sh.People[op.Id]; ok && p.HasPX && g.r.IntN(2) == 0 {
 					op.Memo = p.Memo
 				}
-				fields = append(append([]string{}, fields...), "memo")
+				fields = append(append([]string{}, fields...), "memo", "sponsor")
+				if g.r.IntN(3) == 0 {
+					op.Ref = refGroup()
+				} else if p, ok := sh.People[op.Id]; ok {
+					op.Ref = cloneStrP(p.Sponsor)
+				}
 			}
 			g.checker(&op, fields)
 		case StBadges:
@@ -748,7 +761,7 @@ func (g *gen) f6() Fault {
 	}
 	switch site {
 	case "put":
-		keys = append(keys, "name", "nick", "alias", "dept", "mentor", "createdAt", "updatedAt", "isSystem", "owner", "about", "assignee", "topic", "reviewer", "parent", "occupant", "desks", "salary", "rate", "hired", "level", "badgeNo", "memo", "tka", "tkb", "tk3")
+		keys = append(keys, "name", "nick", "alias", "dept", "mentor", "createdAt", "updatedAt", "isSystem", "owner", "about", "assignee", "topic", "reviewer", "parent", "occupant", "desks", "sponsor", "salary", "rate", "hired", "level", "badgeNo", "memo", "tka", "tkb", "tk3")
 		keys = append(keys, U.Names...)
 		keys = append(keys, U.DeptNames...)
 		keys = append(keys, U.BadgeNos...)
@@ -967,6 +980,8 @@ func (g *gen) genTx() TxPlan {
 	tx := TxPlan{Mode: "update"}
 	if g.r.Float64() < g.cfg.BatchRate {
 		tx.Mode = "batch"
+	} else if g.cfg.Profile == "tx" && g.r.IntN(12) == 0 {
+		tx.Mode = "migrate" // the operations run as one step of MigrationManager.Migrate
 	}
 	if (g.cfg.Prop == "C05" || g.cfg.Prop == "C06") && g.r.IntN(12) == 0 {
 		// link churn: the same pair is linked and unlinked (or the reverse) inside one transaction through the
@@ -1060,6 +1075,9 @@ func (g *gen) genTx() TxPlan {
 		tx.Ctx = "cancel"
 	case 4, 5, 6:
 		tx.Ctx = "reuse" // the task's previous context object, where that is unambiguous (see execWriteTx)
+	}
+	if tx.Mode == "migrate" {
+		tx.Ctx, tx.PreReg = "", "" // Migrate makes its own context
 	}
 	n := 1 + g.r.IntN(g.cfg.MaxOps)
 	// the shadow only guides argument choice; it assumes sequential execution of the plan as generated
@@ -1180,8 +1198,8 @@ func GenPlan(profile, prop string, seed uint64) *Plan {
 		panic("GenPlan: unknown profile " + profile)
 	}
 	g := &gen{r: r, cfg: cfg, shadow: NewModel()}
-	g.shadow.PxMode = pxMode(int(seed>>7) & 31)
-	p := &Plan{Profile: profile, Prop: prop, Seed: seed, Listeners: cfg.Listeners, Schema: int(seed>>7) & 31}
+	g.shadow.PxMode = pxMode(int(seed>>7) & 63)
+	p := &Plan{Profile: profile, Prop: prop, Seed: seed, Listeners: cfg.Listeners, Schema: int(seed>>7) & 63}
 	if (prop == "C16" || profile == "tx") && r.IntN(14) == 0 {
 		return g.sysBatchPlan(p)
 	}
@@ -1231,8 +1249,8 @@ func genConcurrent(profile, prop string, seed uint64, r *rand.Rand) *Plan {
 	cfg.FaultRate = []float64{0, 0.08}[r.IntN(2)]
 	cfg.Faults = []string{"F1", "F7"}
 	g := &gen{r: r, cfg: cfg, shadow: NewModel()}
-	g.shadow.PxMode = pxMode(int(seed>>7) & 31)
-	p := &Plan{Profile: profile, Prop: prop, Seed: seed, Nonce: true, Schema: int(seed>>7) & 31}
+	g.shadow.PxMode = pxMode(int(seed>>7) & 63)
+	p := &Plan{Profile: profile, Prop: prop, Seed: seed, Nonce: true, Schema: int(seed>>7) & 63}
 	nw := 1 + r.IntN(2)
 	if profile == "conc" {
 		nw = 1
